@@ -445,6 +445,32 @@ def check_caller_inputs(p):
         eq(devs, f"caller.{key}.after_pack", after_pack[key], before[key], f"{k}: packing the PDU modified the caller's {key}")
     # a second PDU built from the same (supposedly untouched) inputs must give the same octets
     eq(devs, "caller.reuse", bytes(mk().pack()), bytes(raw), "second PDU from the same caller objects differs")
+    # the configuration is copied on construction (every constructor does): PDUs built from one caller configuration are independent
+    # of each other and of the caller's object - a header-level setter on one must reach neither its sibling nor the caller
+    if k in ("nak", "keepalive"):
+        vals = [p["start"], p["end"]] + [v for sg in p["segs"] for v in sg] if k == "nak" else [p["progress"]]
+        target = None
+        if not p["conf"]["large"]:
+            target = cd.LargeFileFlag.LARGE
+        elif all(v < (1 << 32) for v in vals):
+            target = cd.LargeFileFlag.NORMAL
+        if target is not None:
+            a, b = mk(), mk()
+            conf_before = M.obs_conf_obj(conf)
+            a.file_flag = target
+            eq(devs, "caller.conf.after_setter_on_pdu", M.obs_conf_obj(conf), conf_before, f"{k}: the file_flag setter of a PDU wrote into the caller's configuration")
+            eq(devs, "sibling.pack_after_setter_on_other_pdu", bytes(b.pack()), bytes(raw), f"{k}: a setter on one PDU changed a sibling built from the same configuration")
+            eq(devs, "sibling.packet_len_after_setter_on_other_pdu", b.packet_len, len(raw))
+            q = copy.deepcopy(p)
+            q["conf"]["large"] = int(target)
+            eq(devs, "setter_target.pack", bytes(a.pack()), M.ref_pdu(q))
+    # ... and the caller going on to use (modify) its own configuration object does not reach into PDUs built earlier
+    y = mk()
+    conf.crc_flag = cd.CrcFlag(1 - p["conf"]["crc"])
+    conf.file_flag = cd.LargeFileFlag(1 - p["conf"]["large"])
+    conf.direction = cd.Direction(1 - int(conf.direction))
+    eq(devs, "pdu.pack_after_caller_changed_its_config", bytes(y.pack()), bytes(raw), f"{k}: PDU follows later changes of the caller's configuration object")
+    eq(devs, "pdu.packet_len_after_caller_changed_its_config", y.packet_len, len(raw))
     return devs
 
 
